@@ -1,5 +1,9 @@
-(* Paths/Model.v: path spellings and the normaliser used for glob matching (src/output/path.rs
-   normalize_for_matching), as string functions. Definitions only. *)
+(* Paths/Model.v: path spellings and the normaliser used for glob matching and baseline keys
+   (src/output/path.rs normalize_for_matching / strip_current_dir / path_key), as string functions.
+   The normaliser rebuilds a path from its components: an absolute path below the current directory loses
+   that prefix (Path::strip_prefix, component-wise), backslashes become separators, `.` components and
+   repeated or trailing separators disappear (Path::components), the root directory marker of an absolute
+   path is kept. Definitions only. *)
 From Coq Require Import NArith List Bool.
 Import ListNotations.
 Open Scope N_scope.
@@ -24,78 +28,74 @@ Fixpoint str_eqb (a b : str) : bool :=
   | _, _ => false
   end.
 
-(* an absolute path below the current directory is matched by its relative form *)
-Definition strip_cwd (cwd p : str) : str :=
-  match cwd with
-  | [] => p
-  | _ =>
-    if prefixb cwd p then
-      match skipn (length cwd) p with
-      | [] => [c_dot]
-      | c :: rest => if N.eqb c c_slash || N.eqb c c_bslash then (match rest with [] => [c_dot] | _ => rest end) else p
-      end
-    else p
+(* pieces between slashes, empty pieces kept: split "a//b" = ["a"; ""; "b"], split "" = [""] *)
+Fixpoint split (p : str) : list str :=
+  match p with
+  | [] => [[]]
+  | c :: rest =>
+      if N.eqb c c_slash then [] :: split rest
+      else match split rest with h :: t => (c :: h) :: t | [] => [[c]] end
   end.
 
-Definition strip_dot_prefix (p : str) : str :=
-  match p with
-  | a :: b :: rest => if N.eqb a c_dot && (N.eqb b c_slash || N.eqb b c_bslash) then rest else p
-  | _ => p
+(* Path::components keeps every piece except the empty ones and `.` *)
+Definition keep (c : str) : bool :=
+  match c with [] => false | [d] => negb (N.eqb d c_dot) | _ => true end.
+Definition comps (p : str) : list str := filter keep (split p).
+
+Fixpoint join_slash (cs : list str) : str :=
+  match cs with
+  | [] => []
+  | [c] => c
+  | c :: t => c ++ c_slash :: join_slash t
+  end.
+
+Definition is_abs (p : str) : bool := match p with c :: _ => N.eqb c c_slash | [] => false end.
+
+Fixpoint strip_pref (a b : list str) : option (list str) :=
+  match a, b with
+  | [], _ => Some b
+  | x :: a', y :: b' => if str_eqb x y then strip_pref a' b' else None
+  | _ :: _, [] => None
   end.
 
 Definition unbackslash (p : str) : str := map (fun c => if N.eqb c c_bslash then c_slash else c) p.
 
+(* strip_current_dir: Some relative form for an absolute path below the current directory *)
+Definition strip_cwd (cwd p : str) : str :=
+  if is_abs p then
+    match strip_pref (comps cwd) (comps p) with Some rest => join_slash rest | None => p end
+  else p.
+
 Definition norm (cwd p : str) : str :=
-  let s := strip_dot_prefix (strip_cwd cwd p) in
-  match s with
-  | [] => []
-  | [d] => if N.eqb d c_dot then [] else unbackslash s
-  | _ => unbackslash s
-  end.
-
-(* ---- spellings of the scan root and the path a walker yields for a project-relative path ---- *)
-Inductive spelling :=
-| NoArg | Dot | DotSlash            (* the whole project: walker root "." or "./" *)
-| Abs                               (* the absolute project directory *)
-| Rel (sub : str) | DotRel (sub : str) | AbsSub (sub : str).   (* a sub-directory, three ways *)
-
-Definition join (a b : str) : str := a ++ c_slash :: b.
-
-(* [rel] is the project-relative path of an entry (components joined by /), never empty.
-   Walkers join the root as given with the entry's path below it. *)
-Definition walked (cwd : str) (s : spelling) (rel : str) : str :=
-  match s with
-  | NoArg | Dot | DotSlash => c_dot :: c_slash :: rel
-  | Abs => join cwd rel
-  | Rel _ => rel
-  | DotRel _ => c_dot :: c_slash :: rel
-  | AbsSub _ => join cwd rel
-  end.
-
-(* the entry lies below the root that the spelling names *)
-Definition below (sub rel : str) : bool :=
-  str_eqb sub rel || prefixb (sub ++ [c_slash]) rel.
-Definition in_root (s : spelling) (rel : str) : bool :=
-  match s with
-  | NoArg | Dot | DotSlash | Abs => true
-  | Rel sub | DotRel sub | AbsSub sub => below sub rel
-  end.
-
-(* well-formed project-relative path: non-empty, no backslash, does not start with / or with ./ ,
-   is not the single dot *)
-Definition wf_rel (rel : str) : bool :=
-  match rel with
-  | [] => false
-  | c :: rest =>
-      negb (N.eqb c c_slash) && negb (existsb (N.eqb c_bslash) rel) &&
-      negb (N.eqb c c_dot && match rest with [] => true | d :: _ => N.eqb d c_slash || N.eqb d c_bslash end)
-  end.
-(* well-formed current directory: absolute, no trailing slash, not the root directory itself *)
-Definition wf_cwd (cwd : str) : bool :=
-  match cwd with
-  | c :: _ :: _ => N.eqb c c_slash && negb (N.eqb (last cwd 0) c_slash)
-  | _ => false
-  end.
+  let u := unbackslash (strip_cwd cwd p) in
+  (if is_abs u then [c_slash] else []) ++ join_slash (comps u).
 
 (* baseline / cache key of a result path *)
 Definition key (cwd p : str) : str := norm cwd p.
+
+(* ---- what a walker yields ---- *)
+(* Path::join: no second separator after a root that already ends in one *)
+Definition ends_slash (a : str) : bool := match rev a with c :: _ => N.eqb c c_slash | [] => false end.
+Definition pjoin (a b : str) : str := if ends_slash a then a ++ b else a ++ c_slash :: b.
+
+(* [root] is the scan root as the user spelled it; [below] are the components of an entry below it
+   ([] for the root entry itself): the walker yields the root as given, joined with the entry's path *)
+Definition walked (root : str) (below : list str) : str :=
+  match below with [] => root | _ => pjoin root (join_slash below) end.
+
+(* a clean component: non-empty, not `.`, no separator of either kind *)
+Definition clean (c : str) : bool :=
+  keep c && negb (existsb (N.eqb c_slash) c) && negb (existsb (N.eqb c_bslash) c).
+Definition clean_list (cs : list str) : bool := forallb clean cs.
+
+(* the current directory: absolute, made of clean components, not the file-system root *)
+Definition cwd_of (cc : list str) : str := c_slash :: join_slash cc.
+Definition wf_cwd_comps (cc : list str) : bool := clean_list cc && negb (match cc with [] => true | _ => false end).
+
+(* [root] spells the directory with project-relative components [rc]:
+   relatively -- it does not start with a separator and its components (backslashes read as separators)
+   are rc; or absolutely -- no backslash, and its components are those of the current directory then rc *)
+Definition spells_rel (root : str) (rc : list str) : Prop :=
+  is_abs (unbackslash root) = false /\ root <> [] /\ comps (unbackslash root) = rc.
+Definition spells_abs (cc : list str) (root : str) (rc : list str) : Prop :=
+  is_abs root = true /\ existsb (N.eqb c_bslash) root = false /\ comps root = cc ++ rc.
